@@ -281,6 +281,13 @@ def register(chk):
     return lmax
 
 
+def include_in(chk):
+    """this check's obligations registered inside another check (framework.Check.include)"""
+    marsh.prog(TAG)
+    marsh.prog(TAG + "_tower", marsh.TOWER_FILES)
+    register(chk)
+
+
 def main(argv=None):
     chk = Check("C15", "proof", argv)
     marsh.prog(TAG)
@@ -301,7 +308,7 @@ def main(argv=None):
     chk.rule = ("one evaluation = one obligation; length:* are solver queries over symbolic l / length / first byte; roundtrip:* combine A-MEM bounds checks, solver queries "
                 "on the index bytes, slot count and flags, and ground comparisons of formal group elements; reject:* are propositional queries over the decode results")
     # lower layers whose specifications this check relies on: their obligations are part of this check's claim (framework.Check.include)
-    for dep in ['C09', 'C02', 'C03', 'C04', 'C05', 'C19', 'C20']:
+    for dep in ['C09', 'C02', 'C03', 'C04', 'C05', 'C01', 'C19', 'C20']:      # C01: compressed Params recompute the pairing value on load
         chk.include(dep)
     chk.run()
     chk.finish()
